@@ -110,7 +110,8 @@ def cmd_check(prop, tier, seed, jobs, only=None, verbose=False):
     results.sort(key=lambda r: r["name"])
     fp = tree_fingerprint()
     os.makedirs(os.path.join(ROOT, "replays"), exist_ok=True)
-    os.makedirs(os.path.join(ROOT, "evidence"), exist_ok=True)
+    evdir = os.environ.get("VF_EVIDENCE_DIR") or os.path.join(ROOT, "evidence")
+    os.makedirs(evdir, exist_ok=True)
 
     violations, undecided, crashes, known_seen = [], [], [], []
     negative_ok = []
@@ -258,7 +259,7 @@ def cmd_check(prop, tier, seed, jobs, only=None, verbose=False):
         ),
         assumptions=ASSUMPTIONS + sorted(assumed) + ["lemma: " + l for l in sorted(lemmas)] + notes,
     )
-    with open(os.path.join(ROOT, "evidence", f"{prop}.json"), "w") as f:
+    with open(os.path.join(evdir, f"{prop}.json"), "w") as f:
         json.dump(ev, f, indent=1, default=str)
     code = 0
     if crashes:
@@ -286,7 +287,9 @@ def write_replay(prop, hn, clause, rep, r, fp, tier):
                 values=(rep or {}).get("model"), solver_output=(rep or {}).get("detail"),
                 harness_status=r.get("status"), note=r.get("note"), funcs=r.get("funcs"))
     tag = hashlib.sha256(json.dumps([hn, clause], sort_keys=True).encode()).hexdigest()[:10]
-    path = os.path.join(ROOT, "replays", f"{prop}-{tag}.json")
+    rdir = os.environ.get("VF_REPLAY_DIR") or os.path.join(ROOT, "replays")
+    os.makedirs(rdir, exist_ok=True)
+    path = os.path.join(rdir, f"{prop}-{tag}.json")
     with open(path, "w") as f:
         json.dump(body, f, indent=1, default=str)
     return path
